@@ -348,11 +348,58 @@ func (g *Gen) unchangedAllBound(old, cur HeapView, except map[string]bool, bound
 		if bound != "" {
 			bd = bound
 		}
-		parts = append(parts, fmt.Sprintf("(forall ((r Ref)) (! (=> (alloc r %s) (= (select %s r) (select %s r))) :pattern ((select %s r))))", bd, b, a, b))
+		parts = append(parts, unchangedOne(cs.merges, bd, a, b, 0, mapKeySort(g.TE.heapSort[h])))
 	}
 	if len(parts) == 0 {
 		return "true"
 	}
+	return "(and " + strings.Join(parts, " ") + ")"
+}
+
+// unchangedOne: heap version b agrees with version a on every object allocated below next. When b was introduced
+// at a control-flow join (b = ite(reach1, b1, ite(reach2, b2, ...)), every obligation after the join is under
+// reach1 or reach2 or ...), the statement is split per incoming branch: (reach_i => unchanged(b_i)) for every i,
+// together with the cover (or reach_i) that makes the split equivalent to the statement about b. A solver decides
+// the branches separately in a fraction of the time it needs to case-split the array-valued ite itself.
+// mapKeySort: for a map heap (Array Ref (Array K V)) the key sort K, else "".
+func mapKeySort(heapSort string) string {
+	const p = "(Array Ref (Array "
+	if !strings.HasPrefix(heapSort, p) {
+		return ""
+	}
+	rest := heapSort[len(p):]
+	if strings.HasPrefix(rest, "(") {
+		return ""
+	}
+	if i := strings.Index(rest, " "); i > 0 {
+		return rest[:i]
+	}
+	return ""
+}
+
+func unchangedOne(merges map[string][]mergeBranch, next, a, b string, depth int, keySort string) string {
+	if a == b {
+		return "true"
+	}
+	bs, ok := merges[b]
+	if !ok || depth >= 4 {
+		if keySort != "" {
+			// map heaps: key by key (equality of the per-object key arrays would need extensionality, which the
+			// solvers do not derive from the pointwise postconditions of callees)
+			// (the entry of nil is junk no execution reads: has()/lookups guard against the nil map)
+			return fmt.Sprintf("(forall ((r Ref) (k %s)) (! (=> (and (alloc r %s) (not (= r nil))) (= (select (select %s r) k) (select (select %s r) k))) :pattern ((select (select %s r) k))))", keySort, next, b, a, b)
+		}
+		return fmt.Sprintf("(forall ((r Ref)) (! (=> (alloc r %s) (= (select %s r) (select %s r))) :pattern ((select %s r))))", next, b, a, b)
+	}
+	parts := []string{}
+	var reaches []string
+	for _, br := range bs {
+		reaches = append(reaches, br.reach)
+		if u := unchangedOne(merges, next, a, br.heap, depth+1, keySort); u != "true" {
+			parts = append(parts, fmt.Sprintf("(=> %s %s)", br.reach, u))
+		}
+	}
+	parts = append(parts, "(or "+strings.Join(reaches, " ")+")")
 	return "(and " + strings.Join(parts, " ") + ")"
 }
 
